@@ -300,7 +300,7 @@ Section Inv.
   Inductive adv_pos (c : config) (J : inst) (a : node) : pos X -> pos X -> Prop :=
   | adv_start : n_preds a = [] -> adv_pos c J a PWait (PReady (i_in J))
   | adv_join : forall ys, n_preds a <> [] -> omapM (final_of S X J) (n_preds a) = Some ys ->
-               adv_pos c J a PWait (PReady (mrg ys))
+               adv_pos c J a PWait (PReady (join_val X mrg a ys))
   | adv_nopre : forall x, adv_pos c J a (PReady x) (PPred x)
   | adv_spawn : forall x, n_sub a = None -> adv_pos c J a (PPred x) (PRun x 0)
   | adv_finish : forall x j, n_sub a = None -> adv_pos c J a (PRun x j) (PDone (lout (n_id a) x))
@@ -332,7 +332,7 @@ Section Inv.
                 | Some b => match omapM (final_of S X J) l with Some bs => Some (b :: bs) | None => None end
                 | None => None end) with (omapM (final_of S X J) (n0 :: l)) in H.
         destruct (omapM (final_of S X J) (n0 :: l)) eqn:Eo; [|discriminate]. inv H.
-        left. exists (PReady (mrg l0)), (i_doneq J). split; [|reflexivity].
+        left. exists (PReady (join_val X mrg a l0)), (i_doneq J). split; [|reflexivity].
         apply adv_join; rewrite Ep; [discriminate|auto].
     - inv H. left. exists (PPred x), (i_doneq J). split; [constructor|reflexivity].
     - destruct (n_sub a) eqn:Es.
